@@ -6,6 +6,10 @@ props = [json.loads(l) for l in open(os.path.join(VERIF, 'properties.jsonl'))]
 ids = [p['id'] for p in props]
 
 CHECKS = {
+ 'C15': dict(engine='E3 spec', category='model_checking', design_ref='3 C15',
+   technique='explicit-state breadth-first search over derivation histories on real model classes with alias-aware canonical states and frame / post / order invariants',
+   text='States are histories of 17 (quick) / 20 (thorough) derivation and evolution operations - primitive customisation with constraints, customize with min_occurs / nillable / sub_name / type_name / default, child_attrs, child_attrs_all, Array wrapped and unwrapped, Iterable, Mandatory, subclassing, append_field, insert_field, one attribute dict reused for two customisations - applied to any member of a growing pool seeded with Unicode, Integer, Decimal, ByteArray, a class, its subclass and two arrays. Each state is rebuilt by replaying its history on fresh classes; every transition calls the real API; all histories to depth 2 (quick, ~4 900) / 3 (thorough, ~730 000) are explored, deduplicated on snapshots + alias partition. After every transition: no other pooled model changed its snapshot (attributes, ordered fields, validation verdicts on probes) except the documented effect of append/insert_field on the class, its variants and subclasses; the new model carries the requested attributes and no others; flat field order is declaration order, parents first. The depth-2 search is repeated in fresh processes under three other hash seeds and must give the same canonical states.',
+   note='Rendered-schema snapshots are not part of the canonical state yet; stock primitives are process-global, so a mutation of one is attributed to the first history that observes it.'),
  'C13': dict(engine='E3 spec', category='model_checking', design_ref='3 C13',
    technique='explicit-state model checking of a TLA+ model of the WSGI exchange (TLC) with every terminal behaviour replayed on the real WsgiApplication under wsgiref.validate',
    text='tla/Wsgi.tla fixes all environment choices in Init - request kind {success, generator, user fault, validation error, unknown method, malformed, ?wsdl} x body length x max_content_length x CONTENT_LENGTH {absent, empty, 0..MaxB+1} x block length x short reads x client abort after {0,1,2,all} chunks - and models the bounded reader as a loop. TLC explores it completely (27 703 states quick, ~120 000 thorough) under the invariants ReadBound, StartOnceBeforeBody, NoFuncWhenTooLong, NoFuncWhenOver, ClosedOnce, ClosedAfterBody. Every terminal state (3 748 quick / 12 772 thorough behaviours) is replayed for JSON and SOAP 1.1 x chunked on/off with lengths scaled by a unit: bytes actually read from a counting (optionally one-byte-short-reading) wsgi.input, whether the user function ran, the status class and the order of START / CHUNK / CTXCLOSED must equal the model; status and header types, bytes chunks, Content-Length and wsgiref.validate are checked on the concrete run.',
